@@ -7,11 +7,11 @@ import (
 
 // Plain Go model of nested values: []any for lists, verifM for maps.
 type verifM struct {
-	keys []string
+	keys []any
 	vals []any
 }
 
-func (m verifM) get(k string) (any, bool) {
+func (m verifM) get(k any) (any, bool) {
 	for i, x := range m.keys {
 		if x == k {
 			return m.vals[i], true
@@ -20,8 +20,8 @@ func (m verifM) get(k string) (any, bool) {
 	return nil, false
 }
 
-func (m verifM) with(k string, v any) verifM {
-	r := verifM{append([]string{}, m.keys...), append([]any{}, m.vals...)}
+func (m verifM) with(k any, v any) verifM {
+	r := verifM{append([]any{}, m.keys...), append([]any{}, m.vals...)}
 	for i, x := range r.keys {
 		if x == k {
 			r.vals[i] = v
@@ -33,7 +33,7 @@ func (m verifM) with(k string, v any) verifM {
 	return r
 }
 
-func (m verifM) without(k string) verifM {
+func (m verifM) without(k any) verifM {
 	r := verifM{}
 	for i, x := range m.keys {
 		if x != k {
@@ -111,7 +111,7 @@ func verifModelSet(m any, path []any, v any, del bool) any {
 		r[i] = verifModelSet(m[i], path[1:], v, del)
 		return r
 	case verifM:
-		k := path[0].(string)
+		k := path[0]
 		if len(path) == 1 && del {
 			return m.without(k)
 		}
@@ -124,10 +124,14 @@ func verifModelSet(m any, path []any, v any, del bool) any {
 // VerifC14: a = [ [&k0=[x0 x1] &k1=x2] x3 ], b = [a[0] y]; a history of `steps`
 // element assignments / deletions on a; every alias is compared with its
 // snapshot after every step.
-func VerifC14(steps int) {
+func VerifC14(steps, nilKey int) {
 	x := func() any { return vrt.Int("leaf") }
 	inner := []any{x(), x()}
-	mm := verifM{[]string{"k0", "k1"}, []any{inner, x()}}
+	var k1 any = "k1"
+	if nilKey == 1 {
+		k1 = nil // the $nil key is stored in a dedicated slot of the map
+	}
+	mm := verifM{[]any{"k0", k1}, []any{inner, x()}}
 	am := []any{mm, x()}
 	a0 := verifToVal(am)
 	va, _ := verifVar(a0)
@@ -152,11 +156,11 @@ func VerifC14(steps int) {
 		case 0: // set a[0][k0][i] = v
 			path = []any{0, "k0", vrt.Choice("i", 2)}
 		case 1: // set a[0][k1] = v
-			path = []any{0, "k1"}
+			path = []any{0, k1}
 		case 2: // set a[1] = v
 			path = []any{1}
 		case 3: // del a[0][k1]
-			path, del = []any{0, "k1"}, true
+			path, del = []any{0, k1}, true
 		case 4: // set a[0][k2] = v (new key)
 			path = []any{0, "k2"}
 		}
@@ -167,7 +171,7 @@ func VerifC14(steps int) {
 				_, okPath = m0.get("k0")
 			}
 			if del {
-				_, okPath = m0.get("k1")
+				_, okPath = m0.get(k1)
 			}
 		} else {
 			okPath = len(path) == 1
